@@ -71,6 +71,19 @@ func loadKnownFindings() []KnownFinding {
 	return out
 }
 
+// violNoteKey: concrete notes (e.g. the program or terminal under test) identify
+// the failing case; witness values of symbolic notes do not.
+func violNoteKey(v *Violation) string {
+	out := ""
+	for _, n := range v.Notes {
+		if n.Key == "violated-earlier" || strings.Contains(n.Val, "(witness") {
+			continue
+		}
+		out += "|" + n.Key + "=" + n.Val
+	}
+	return out
+}
+
 func violMsgText(v *Violation) string {
 	// strip "file:line: " prefix
 	msg := v.Msg
@@ -97,6 +110,18 @@ func (k *KnownFinding) matches(prop string, v *Violation) bool {
 			found := false
 			for _, c := range v.Choices {
 				if c == name[7:]+"="+want {
+					found = true
+				}
+			}
+			if !found {
+				return false
+			}
+			continue
+		}
+		if strings.HasPrefix(name, "note.") {
+			found := false
+			for _, n := range v.Notes {
+				if n.Key == name[5:] && strings.Trim(n.Val, "\"") == want {
 					found = true
 				}
 			}
@@ -557,6 +582,9 @@ func runProperty(prop *PropSpec, tier string, seed int, verbose int, only string
 		for _, a := range r.Asserts {
 			reached += a.Reached
 		}
+		if r.Paths == r.PathsByEnd["cut"] && r.Paths > 0 {
+			continue // empty work split
+		}
 		if r.PathsByEnd["done"] == 0 && len(r.Violations) == 0 && len(r.Incon) == 0 {
 			inconAll = append(inconAll, r.Label+": vacuous harness (no path completed)")
 		}
@@ -578,7 +606,7 @@ func runProperty(prop *PropSpec, tier string, seed int, verbose int, only string
 	groups := map[string]*vgroup{}
 	var order []string
 	for _, v := range viols {
-		k := v.Harness + "|" + violMsgText(v)
+		k := v.Harness + "|" + violMsgText(v) + violNoteKey(v)
 		g := groups[k]
 		if g == nil {
 			g = &vgroup{key: k}
@@ -653,7 +681,7 @@ func runProperty(prop *PropSpec, tier string, seed int, verbose int, only string
 			}
 			violationsReported++
 			fmt.Printf("VIOLATION property=%s replay=%s\n", id, dir)
-			fmt.Printf("  harness %s: %s\n  inputs: %v\n  choices: %v\n", v.Harness, v.Msg, v.Inputs, v.Choices)
+			fmt.Printf("  harness %s: %s\n  inputs: %v\n  choices: %v\n  notes: %v\n", v.Harness, v.Msg, v.Inputs, v.Choices, v.Notes)
 			exit = 1
 		}
 	}
